@@ -33,7 +33,7 @@ package keeper
 //@ func (k Keeper) ModifyParam(ctx sdk.Ctx, aclKey string, paramValue []byte, owner sdk.Address) (res sdk.Result)
 //@   props C17 C11
 //@   requires len(owner) == 20
-//@   modifies gov.pval, gov.acl, gov.daoowner, Hm_Str_S_types_Subspace_v, Hmp_Str   // k.spaces[name] = space rewrites the keeper's subspace map entry
+//@   modifies gov.pval, gov.acl, gov.daoowner, Hm_Str_S_types_Subspace_v, Hmp_Str_S_types_Subspace_v   // k.spaces[name] = space rewrites the keeper's subspace map entry
 //@   ensures [rejected] res.Code != 0 ==> unchanged(gov)
 //@   ensures [authorised] res.Code == 0 ==> (forall i int :: (0 <= i && i < len(old(gov.acl)) && old(gov.acl)[i].Key == aclKey && (forall j int :: 0 <= j && j < i ==> old(gov.acl)[j].Key != aclKey)) ==> old(gov.acl)[i].Addr == owner)
 //@        && !(forall j int :: 0 <= j && j < len(old(gov.acl)) ==> old(gov.acl)[j].Key != aclKey)
@@ -41,7 +41,7 @@ package keeper
 //@ func (k Keeper) HandleUpgrade(ctx sdk.Ctx, aclKey string, paramValue interface{}, owner sdk.Address) (res sdk.Result)
 //@   props C17 C11
 //@   requires len(owner) == 20
-//@   modifies gov.pval, gov.acl, gov.daoowner, Hm_Str_S_types_Subspace_v, Hmp_Str   // k.spaces[name] = space rewrites the keeper's subspace map entry
+//@   modifies gov.pval, gov.acl, gov.daoowner, Hm_Str_S_types_Subspace_v, Hmp_Str_S_types_Subspace_v   // k.spaces[name] = space rewrites the keeper's subspace map entry
 //@   ensures [rejected] res.Code != 0 ==> unchanged(gov)
 //@   ensures [authorised] res.Code == 0 ==> (forall i int :: (0 <= i && i < len(old(gov.acl)) && old(gov.acl)[i].Key == aclKey && (forall j int :: 0 <= j && j < i ==> old(gov.acl)[j].Key != aclKey)) ==> old(gov.acl)[i].Addr == owner)
 //@        && !(forall j int :: 0 <= j && j < len(old(gov.acl)) ==> old(gov.acl)[j].Key != aclKey)
